@@ -2,6 +2,7 @@ package config
 
 import (
 	"fmt"
+	"go/token"
 	"go/types"
 	"path/filepath"
 	"strings"
@@ -185,6 +186,9 @@ func parseConverterLine(ctx *context, c *Converter, value string) (err error) {
 			return err
 		}
 		c.Name, err = parse.String(rest)
+		if err == nil && !token.IsIdentifier(c.Name) {
+			err = fmt.Errorf("invalid identifier: %q", c.Name)
+		}
 	case "output:raw":
 		c.OutputRaw = append(c.OutputRaw, rest)
 	case configOutputFile:
@@ -213,6 +217,9 @@ func parseConverterLine(ctx *context, c *Converter, value string) (err error) {
 		parts := strings.SplitN(pkg, ":", 2)
 		switch len(parts) {
 		case 2:
+			if err == nil && parts[1] != "" && !token.IsIdentifier(parts[1]) {
+				err = fmt.Errorf("invalid package name: %q", parts[1])
+			}
 			c.OutputPackageName = parts[1]
 			fallthrough
 		case 1:
